@@ -70,6 +70,14 @@ static void walk(Ctx &cx, LState &s, char const *after)
             VP_CHECK(cx, bw.size() <= lim, "list:cycle", "after %s: ring %d backward walk does not return to its head", after, r);
         }
         std::reverse(bw.begin(), bw.end());
+        {
+            // the spellings that declare their own loop variable
+            std::vector<int> fw2, bw2;
+            a_list_foreach_next(it2, h) { fw2.push_back(id_of(s, it2)); if (fw2.size() > lim) { break; } }
+            a_list_foreach_prev(it2, h) { bw2.push_back(id_of(s, it2)); if (bw2.size() > lim) { break; } }
+            std::reverse(bw2.begin(), bw2.end());
+            VP_CHECK(cx, fw2 == fw && bw2 == bw, "list:foreach_spelling", "after %s: ring %d: a_list_foreach_next / _prev enumerate another sequence than A_LIST_FOREACH_NEXT / _PREV", after, r);
+        }
         VP_CHECK(cx, fw == s.ring[r], "list:sequence", "after %s: ring %d forward sequence (%zu nodes) differs from the abstract sequence (%zu)", after, r, fw.size(), s.ring[r].size());
         VP_CHECK(cx, bw == s.ring[r], "list:sequence_backward", "after %s: ring %d backward sequence differs from the abstract sequence", after, r);
         cx.metric(0, double(fw.size()));
@@ -403,6 +411,17 @@ static void walk(Ctx &cx, SState &s, char const *after)
             fw.push_back(id);
             last = it;
             VP_CHECK(cx, fw.size() <= POOL + 1, "slist:cycle", "after %s: list %d walk does not terminate", after, r);
+        }
+        {
+            std::vector<int> fw2;
+            a_slist_foreach(it2, &s.list[r])
+            {
+                int id = -1;
+                for (int i = 0; i < POOL; ++i) { if (s.node[i] == it2) { id = i; } }
+                fw2.push_back(id);
+                if (fw2.size() > POOL + 1) { break; }
+            }
+            VP_CHECK(cx, fw2 == fw, "slist:foreach_spelling", "after %s: list %d: a_slist_foreach enumerates another sequence than A_SLIST_FOREACH", after, r);
         }
         VP_CHECK(cx, fw == s.seq[r], "slist:sequence", "after %s: list %d holds %zu nodes, abstract sequence %zu (or order differs)", after, r, fw.size(), s.seq[r].size());
         VP_CHECK(cx, s.list[r].tail == last, "slist:tail", "after %s: list %d tail does not designate the last node (%zu nodes)", after, r, fw.size());
